@@ -25,7 +25,7 @@ CFG = {
                   "refresh set, then whatever well-formed grid the terminal shows), app_screen_is_last_write (that screen = the writes of Spec.Window that hit each cell, "
                   "last wins, never-written blank), app_cursor / app_cursor_always (cursor as last requested after every frame, also after a size change to ANY size — an empty screen included — whatever the terminal did with the cursor) / showCursor_position, frame_displays / history_displays_clip (no 'glyph fits' hypothesis since the F02 "
                   "repair), frame_displays_current, sixel_cell_not_drawn, dropped_image_rewritten, flush_epilogue, cursor_as_requested; on a terminal that clusters graphemes (mode 2027): "
-                  "frame_displays_clustering under the explicit hypothesis NoJoinRows (no grapheme of a row joins a later one of that row), render_no_adjacent_join (every frame of the current renderer, "
+                  "frame_displays_clustering_tight under the explicit hypothesis NoJoinNeighbours (no two horizontally consecutive shown cells of a row join; frame_displays_clustering for the coarser NoJoinRows), render_no_adjacent_join_tight (every frame of the current renderer, "
                   "image cells included), clustering_terminal_agrees, and no_join_needed (decide: the hypothesis is necessary, finding F112d); stream_*_is_sysStep / oracle_screen_is_model_screen "
                   "(the op-level stream runs sysStep, and its oracle's reference screen is the model's buffer). Structural tie: the statement "
                   "skeletons of render/showCursor/advance/Write/WriteString/Flush regenerated from the source — locals printed under their role names, so renaming a local does not alarm — equal the pinned transcription (facts_render, facts_writer, "
@@ -35,8 +35,8 @@ CFG = {
     "level_note": "Left to the application/terminal as explicit hypotheses (each shown necessary by a decide-checked witness): cells given to SetCell/Fill have width >= 0 and an "
                   "explicit width that is 0/correct/(>1 with OSC 66); uniseg's width is the terminal's when the text helpers do not re-measure; the ellipsis has width 1 for "
                   "PrintTruncate; a space has width 1; a visible cursor is inside the screen at Render (Window.ShowCursor does not clip: Witness/C11ShowCursor); after a size "
-                  "change the terminal shows a well-formed grid. On a clustering terminal additionally: no two graphemes of a row join (NoJoinRows; render() writes neighbouring cells back to back — F112d; a CUP between them was evaluated and rejected: it does not help on terminals that cluster against the cell left of the cursor). "
-                  "F111c (Wrap put the halves of one cluster — a flag beginning a later Segment — into two cells, which such a terminal shows as one glyph; found by the op-level stream) is fixed in /repo 1f9a9ad. app_history_displays is stated over the plain terminal; app_history_displays_clustering (Props/C01AppCluster) is its form for the clustering terminal, with RunNoJoin (NoJoinRows of the screen at every frame) as the extra hypothesis. Validated by correspondence only: "
+                  "change the terminal shows a well-formed grid. On a clustering terminal additionally: no two neighbouring shown cells join (NoJoinNeighbours; render() writes neighbouring cells back to back — F112d; a CUP between them was evaluated and rejected: it does not help on terminals that cluster against the cell left of the cursor). "
+                  "F111c (Wrap put the halves of one cluster — a flag beginning a later Segment — into two cells, which such a terminal shows as one glyph; found by the op-level stream) is fixed in /repo 1f9a9ad. app_history_displays is stated over the plain terminal; app_history_displays_clustering (Props/C01AppCluster) is its form for the clustering terminal, with RunNoJoin (NoJoinNeighbours of the screen at every frame) as the extra hypothesis. Validated by correspondence only: "
                   "that the Lean loops equal the Go loops beyond their pinned statement structure; screens WITH image cells (oracle treats image cells as don't-care; the "
                   "display theorems assume none). Placement loops of render() are C20's. Spec.Display is a model of a standards-conforming terminal, not a physical one.",
     "assumptions": ["terminal width of a raw-printed grapheme equals Vaxis's characterWidth under the same capability set (C07 width method)",
